@@ -269,7 +269,17 @@ def d3_d4(prog, rep):
 
     def is_cmp(L):
         return L[0] == "call" and L[1] == "memcmp" and L[2] == P and L[3][0] == "v" and L[3][1] == "crypto_dh_group14" and L[4] == ("c", 256)
-    ok = set(rets) == {-1, 0} and any(op == ">=" and is_cmp(L) and R == ("c", 0) for op, L, R in rets[-1]) and any(op == "<" and is_cmp(L) and R == ("c", 0) for op, L, R in rets[0])
+    ok = set(rets) == {-1, 0}
+    # every rejection is the comparison's, every acceptance its complement: a value below the modulus is never turned away
+    for r in s.returns():
+        v = norm(r.kid(0))
+        conds = [(op, L, R) for cond, truth in s.edge_conds(r) for op, L, R, _, _ in cond_atoms(cond, truth)]
+        if v == ("c", -1):
+            ok = ok and any(op == ">=" and is_cmp(L) and R == ("c", 0) for op, L, R in conds)
+        elif v == ("c", 0):
+            ok = ok and any(op == "<" and is_cmp(L) and R == ("c", 0) for op, L, R in conds)
+        else:
+            ok = False
     rep.check(ok, "D4-sanity", "sanitycheck rejects exactly memcmp(pub, modulus, 256) >= 0", s.loc,
               "equal-length big-endian byte order is numeric order; edges: %s" % {k: [(o, show(l)) for o, l, r in v] for k, v in rets.items()}, function=s.name, construct="sanity")
 
